@@ -175,6 +175,22 @@ Theorem C08_delete_put_chars_total : forall rows e y a1 a2 t k r2 o2 cl cc pc e1
   (off_ok nl (g_o1 g) -> ViDefs.flat txt <> [] -> v_off (s_vs e1) = g_o1 g /\ s_buf (exec_put rows e1 y 0 false) = b).
 Proof. exact delete_chars_total. Qed.
 Print Assumptions C08_delete_put_chars_total.
+(* ... and C08_delete_put_lines_exec without side conditions on the region: the rows of a line-wise region exist
+   (counts that overrun are clamped), for every line motion or doubled operator with counts a1, a2 >= 0 *)
+Theorem C08_delete_put_lines_total : forall rows e y a1 a2 t k r2 o2 cl cc pc e1, plain_reg y ->
+  let b := s_buf e in let s := s_vs e in
+  let o1 := ren_noeol (getl b (v_row s)) (v_off s) in
+  buf_wf b -> buf_valid b -> b <> [] -> cursor_ok b (v_row s) (v_off s) -> 0 <= a1 -> 0 <= a2 ->
+  op_target b rows s a1 a2 t o1 = TOk k r2 o2 cl cc pc ->
+  let g := vc_region b k (v_row s) o1 r2 o2 in
+  g_ln g = true ->
+  exec_op rows e y a1 Od a2 t [] = Some e1 ->
+  0 <= g_r1 g /\ g_r1 g <= g_r2 g /\ g_r2 g < blen b /\
+  reg_get (s_regs e1) y = Some (ViDefs.flat (concat (rows_between b (g_r1 g) (g_r2 g + 1))), true) /\
+  s_buf e1 = firstn (Z.to_nat (g_r1 g)) b ++ skipn (Z.to_nat (g_r2 g + 1)) b /\
+  (g_r2 g + 1 < blen b -> v_row (s_vs e1) = g_r1 g /\ s_buf (exec_put rows e1 y 0 false) = b).
+Proof. exact delete_lines_total. Qed.
+Print Assumptions C08_delete_put_lines_total.
 (* not covered by a theorem: p (put after) and counts on puts as a round trip, upper-case (appending)
    registers in the round trip, "u restores" (C04) *)
 
